@@ -364,7 +364,10 @@ class _Run:
         await self.pause()
         self.in_op[a] = "iterate"
         self.ev(a, "inv", "iterate", "_send_messages")
-        await ServiceStub._send_messages(FakeStream(), self.ch)
+        class _NoChannel:
+            pass
+        # through an instance: works whether _send_messages is a staticmethod or a method
+        await ServiceStub(_NoChannel())._send_messages(FakeStream(), self.ch)
         self.in_op[a] = None
         self.end[a] = "end-of-iteration"
 
